@@ -38,9 +38,6 @@ def main(argv=None):
             print('unknown argument', argv[i]); return 2
     if tier not in ('quick', 'thorough'):
         tier = 'quick'
-    if prop == 'selftest':
-        from . import selftest
-        return selftest.main(argv[1:])
     if prop not in CHECKS:
         print(f'ANALYSIS-ERROR property={prop} no check registered')
         return 2
@@ -48,8 +45,21 @@ def main(argv=None):
         mod = importlib.import_module(CHECKS[prop])
         repo = Repo()
         if replay:
+            # re-derive one recorded finding on the current tree: exit 1 (and the VIOLATION line) iff the same rule fails on the same construct again
             info = json.load(open(replay))
-            print('replaying finding:', json.dumps(info, indent=1)[:1500])
+            print('replaying finding:', json.dumps({k: info.get(k) for k in ('property', 'rule', 'where', 'construct', 'message')}, indent=1)[:1500])
+            os.environ['TTSA_EVIDENCE_DIR'] = os.path.join(os.path.dirname(os.path.abspath(replay)), 'replay_evidence')
+            from . import core
+            core.EVIDENCE_DIR = os.environ['TTSA_EVIDENCE_DIR']
+            run = mod.check(repo, tier)
+            from .core import norm_text
+            hit = [f for f in run.findings.values() if (f.prop, f.rule, f.where, norm_text(f.construct)) == (info.get('property'), info.get('rule'), info.get('where'), norm_text(info.get('construct', '')))]
+            if hit:
+                print(f'  [{hit[0].rule}] {hit[0].where}: {hit[0].message[:420]}')
+                print(f'VIOLATION property={prop} replay={replay}')
+                return 1
+            print(f'replay: the recorded finding does not reproduce on the current tree ({len(run.findings)} other finding(s) in this run; run the check itself for those)')
+            return 0
         run = mod.check(repo, tier)
         return run.finish()
     except AnalysisError as e:
